@@ -38,7 +38,7 @@ def precheck(case):
 
 
 def budget(tier):
-    return 2400 if tier == "quick" else 6000
+    return 4500 if tier == "quick" else 20000
 
 
 def strategy(tier):
@@ -179,6 +179,11 @@ def _minors_disagree(case, f):
     ms = d.get("input_minors") or []
     if len(set(ms)) < 2 or isinstance(c.get("id"), dict):
         return False
+    # the declared minor itself must be the documented one (one-sided change adopted, else the highest: 'take-max')
+    b_, l_, r_ = ms
+    expected = r_ if l_ == b_ else l_ if (r_ == b_ or l_ == r_) else max(ms)
+    if d.get("declared_minor") != expected:
+        return False
     if "'id' is a required property" in d.get("error", ""):
         return d.get("declared_minor") == 5 and min(ms) < 5 and "id" not in c
     if "'id' was unexpected" in d.get("error", ""):
@@ -186,7 +191,79 @@ def _minors_disagree(case, f):
     return False
 
 
+def _strip_ec(outputs):
+    return [{k: v for k, v in o.items() if k != "execution_count"} for o in outputs or []]
+
+
+def _field_changed(b, o, K, transients):
+    from ..runner import canon
+    if K == "execution_count":
+        return (not transients) and b.get(K) != o.get(K)
+    if K == "outputs":
+        bo, oo = b.get(K), o.get(K)
+        if transients:
+            bo, oo = _strip_ec(bo), _strip_ec(oo)
+        return canon(bo) != canon(oo)
+    return canon(b.get(K)) != canon(o.get(K))
+
+
+def _type_change_vs_field_edit(case, f):
+    """One side changed the cell's type (dropping type-specific fields), the other side changed such a field non-transiently."""
+    import re
+    d = _detail(f)
+    c = d.get("cell") or {}
+    err = d.get("error", "")
+    if "unexpected" in err:
+        names = re.findall(r"'(\w+)'", err.split("unexpected")[0])
+    else:
+        names = re.findall(r"^'(\w+)' is a required property", err)
+    if not names or any(K not in ("outputs", "execution_count", "attachments") for K in names):
+        return False
+    transients = (d.get("args") or {}).get("transients", True)
+    B, L, R = (case[k]["cells"] for k in ("base", "local", "remote"))
+    if isinstance(c.get("id"), str):
+        def find(cells):
+            return [x for x in cells if x.get("id") == c["id"]]
+        triples = [(b, l, r) for b in find(B) for l in find(L) for r in find(R)]
+        if not triples:
+            triples = list(zip(B, L, R))     # a side changed the id as well: fall back to position
+    else:
+        triples = list(zip(B, L, R))
+    for b, l, r in triples:
+        for typ_side, other in ((l, r), (r, l)):
+            if typ_side["cell_type"] != b["cell_type"] and other["cell_type"] == b["cell_type"] and all(
+                    _field_changed(b, other, K, transients) for K in names):
+                return True
+    return False
+
+
+def _both_sides_change_cell_type(case, f):
+    """Both sides gave the same base cell another cell_type (the merger's documented 'should never conflict' field)."""
+    import re
+    d = _detail(f)
+    c = d.get("cell") or {}
+    err = d.get("error", "")
+    names = re.findall(r"'(\w+)'", err.split("unexpected")[0]) if "unexpected" in err else re.findall(r"^'(\w+)' is a required property", err)
+    if not names or any(K not in ("outputs", "execution_count", "attachments") for K in names):
+        return False
+    B, L, R = (case[k]["cells"] for k in ("base", "local", "remote"))
+    if isinstance(c.get("id"), str):
+        def find(cells):
+            return [x for x in cells if x.get("id") == c["id"]]
+        triples = [(b, l, r) for b in find(B) for l in find(L) for r in find(R)]
+        if not find(B) and any(l["cell_type"] != r["cell_type"] for l in find(L) for r in find(R)):
+            return True       # inserted on both sides under one id with different types
+        if not triples:
+            # the id itself was changed by a side: fall back to the other side's id / position
+            triples = [(b, l, r) for b, l, r in zip(B, L, R)]
+    else:
+        triples = list(zip(B, L, R))
+    return any(l["cell_type"] != b["cell_type"] and r["cell_type"] != b["cell_type"] for b, l, r in triples)
+
+
 DISCRIMINATORS = {
+    "both_sides_change_cell_type": _both_sides_change_cell_type,
+    "one_side_changes_cell_type_other_edits_type_specific_field": _type_change_vs_field_edit,
     "marker_cell_with_id_before_4_5": _marker_cell_with_id_before_4_5,
     "dict_valued_id_of_similar_insert": _dict_valued_id_of_similar_insert,
     "input_minors_disagree_about_ids": _minors_disagree,
